@@ -5,7 +5,7 @@ from sim.core import FAILED
 from sim.values import key
 
 ID = "C02"
-CASES = {"quick": 2500, "thorough": 40000}
+CASES = {"quick": 6000, "thorough": 40000}
 RULE = ("seeded ordered pairs of automata; half made language-equal on purpose by independent means (explicit "
         "sink, unreachable states, renaming, extra alphabet symbol leading only to the sink, reference "
         "determinisation rebuilt) x value-hash schedule x PYTHONHASHSEED; non-trivial = both languages non-empty "
